@@ -1248,6 +1248,46 @@ def eta_reduce_callbacks(tree):
     return log
 
 
+# ------------------------------------------------------------------ conditional expressions as statements
+def ifexp_to_statement(tree):
+    """`x = A if C else B`  ->  `if C: x = A  else: x = B` (one target, at statement level; nested conditional expressions
+    in the arms are split in turn).  The arms then carry the outcome of C as guard facts like any other branch."""
+    log = []
+
+    def conv(st):
+        if isinstance(st, ast.Assign) and len(st.targets) == 1 and isinstance(st.value, ast.IfExp) and _simple_target(st.targets[0]):
+            # `x = D if x is None else x` (a default for a missing argument) stays an expression: nothing branches on it
+            tt = ast.unparse(st.targets[0])
+            if tt in (ast.unparse(st.value.body), ast.unparse(st.value.orelse)) and tt in {ast.unparse(x) for x in ast.walk(st.value.test)}:
+                return None
+
+            def mk(v):
+                a = ast.copy_location(ast.Assign(targets=[copy.deepcopy(st.targets[0])], value=v, lineno=st.lineno), st)
+                return conv(a) or [a]
+            new_if = ast.copy_location(ast.If(test=st.value.test, body=mk(st.value.body), orelse=mk(st.value.orelse)), st)
+            log.append("conditional expression assigned at line %d turned into a statement" % getattr(st, "lineno", 0))
+            return [new_if]
+        return None
+
+    def block(stmts):
+        res = []
+        for st in stmts:
+            for field in ("body", "orelse", "finalbody"):
+                sub = getattr(st, field, None)
+                if isinstance(sub, list) and sub and isinstance(sub[0], ast.stmt):
+                    setattr(st, field, block(sub))
+            for h in getattr(st, "handlers", []) or []:
+                h.body = block(h.body)
+            r_ = conv(st)
+            res.extend(r_ if r_ else [st])
+        return res
+
+    tree.body = block(tree.body)
+    if log:
+        ast.fix_missing_locations(tree)
+    return log
+
+
 # ------------------------------------------------------------------ parallel assignment
 def split_tuple_assignments(tree):
     """`a, b = E1, E2`  ->  `a = E1; b = E2` when no target is read by any right-hand side (so the order of the stores
